@@ -36,13 +36,19 @@ def gname(o):
     return "typing." + n
 
 
+def fref(f):
+    """the function object's OWN names: what get_func_in_module's final test and get_func_fqname read"""
+    q = getattr(f, "__qualname__", None)
+    return [str(getattr(f, "__module__", "?")), q if isinstance(q, str) else None]
+
+
 def reify_obj(o, depth=0):
     if isinstance(o, types.MethodType):
-        kind = ["method", fq(o.__func__)]
+        kind = ["method", fref(o.__func__)]
     elif isinstance(o, property):
-        kind = ["property", None if o.fget is None else fq(o.fget), (o.fset is not None) or (o.fdel is not None)]
+        kind = ["property", None if o.fget is None else fref(o.fget), (o.fset is not None) or (o.fdel is not None)]
     elif isinstance(o, (types.FunctionType, types.BuiltinFunctionType)):
-        kind = ["func", fq(o)]
+        kind = ["func", fref(o)]
     elif isinstance(o, type):
         kind = ["class", fq(o)]
     elif o is typing.Any:
